@@ -112,11 +112,12 @@ def build(variant: str = 'plain', quiet: bool = True) -> str:
         inc, suffix, torch_inc = _py_info()
         so = os.path.join(out, 'optree', '_C' + suffix)
         if not os.path.exists(so):
-            # prune stale builds of this variant (keep the 3 most recent: other checks, e.g. against a
-            # scratch copy selected with VERIF_REPO, may still be running from them)
+            # prune stale builds of this variant: only those beyond the 6 most recently USED ones (every use refreshes the mtime below) that
+            # nobody used for two hours - other checks, e.g. several against scratch copies selected with VERIF_REPO, may be running from them
             old = sorted((d for d in glob.glob(os.path.join(bdir, f'{variant}-*')) if not d.endswith('.tmp')), key=os.path.getmtime)
-            for d in old[:-3]:
-                shutil.rmtree(d, ignore_errors=True)
+            for d in old[:-6]:
+                if time.time() - os.path.getmtime(d) > 7200:
+                    shutil.rmtree(d, ignore_errors=True)
             tmp = out + '.tmp'
             shutil.rmtree(tmp, ignore_errors=True)
             os.makedirs(os.path.join(tmp, 'optree'))
@@ -148,6 +149,10 @@ def build(variant: str = 'plain', quiet: bool = True) -> str:
             os.rename(tmp, out)
             if not quiet:
                 print(f'[build] {variant} built in {time.time() - t0:.1f}s -> {out}', file=sys.stderr)
+        try:
+            os.utime(out, None)  # mark as in use (see the pruning rule above)
+        except OSError:
+            pass
         # (re)link python sources: always point at the current working tree
         pkg = os.path.join(out, 'optree')
         for name in os.listdir(os.path.join(r, 'optree')):
